@@ -31,7 +31,7 @@ fn show_player(p: &Player) -> String {
     )
 }
 
-fn show_response(r: &Response) -> String {
+pub fn show_response(r: &Response) -> String {
     format!(
         "G1{{{}}} P{} U{}",
         [
